@@ -227,6 +227,42 @@ def r3(chk, prog):
     chk.check(not bad and bool(sets), 'R3', f.name, 'printing the help marks the usage as printed', f.loc())
 
 
+def r5_visibility_arguments(chk, prog, rule='R5'):
+    """the visibility predicate is asked with the CURRENT settings at every place: each call of ArgDesc::doPrint()
+    passes printHidden() as its 'print hidden' argument, printDeprecated() as its 'print deprecated' argument and
+    contents() as the key selection (the column-width pass and the printing pass must judge the same set of
+    arguments: otherwise the key column is laid out for arguments that are not printed and the first description
+    line starts beyond the block indentation)"""
+    dp = prog.one('celma::prog_args::detail::ArgumentDesc::ArgDesc', 'doPrint')
+    names = [p_['name'].lower() for p_ in dp.params]
+    want = {}
+    for i, nm in enumerate(names):
+        if 'hidden' in nm:
+            want[i] = 'printHidden'
+        elif 'deprecated' in nm:
+            want[i] = 'printDeprecated'
+        elif 'content' in nm:
+            want[i] = 'contents'
+    if len(want) != 3:
+        raise AnalysisBroken('parameters of ArgDesc::doPrint not recognised: %s' % names)
+    n = 0
+    for f in prog.functions:
+        if f.body is None or not (f.classq or '').startswith('celma::prog_args'):
+            continue
+        for c in f.calls():
+            if not callee_is(c, 'ArgDesc::doPrint'):
+                continue
+            args = call_args(c)
+            for i, getter in sorted(want.items()):
+                n += 1
+                got = sorted({(x.get('callee') or '').split('::')[-1] for x in walk(args[i]) if x.get('k') in CALL_KINDS
+                              and (x.get('callee') or '').split('::')[-1] in want.values()})
+                chk.check(got == [getter], rule, f.name, 'doPrint() is asked with the current "%s" setting' % getter,
+                          f.loc(c), 'argument %d of the call is taken from %s' % (i + 1, got or 'something else'))
+    chk.require(n >= 9, 'doPrint() arguments checked: %d' % n)
+    return n
+
+
 def r4_one_settings_object(chk, prog):
     """'visible under the CURRENT settings': the usage settings (print hidden / deprecated, short-only / long-only)
     live in one UsageParams object per handler family; the arguments that change them at run time write into that
@@ -298,3 +334,16 @@ def run(chk):
     r2(chk, prog)
     r3(chk, prog)
     r4_one_settings_object(chk, prog)
+    chk.rule('R5', 'every visibility decision uses the current settings (column-width pass == printing pass)', 9)
+    r5_visibility_arguments(chk, prog)
+    # R6: the description text is formatted by TextBlock: no word of it is lost (C17-R1, same unit)
+    from . import c17
+    chk.rule('R6', 'the description of a listed argument is printed completely (text-block rules of C17)', 5)
+    sub = type(chk)(chk.pid, chk.tier)
+    sub._known = []
+    from ..facts import load_program, units_matching
+    tb_units = units_matching('library/format/text_block.cpp')
+    c17.r1(sub, load_program(tb_units))
+    chk.units = list(chk.units) + tb_units
+    for o in sub.obligations:
+        chk.check(o['status'] == 'held', 'R6', o['function'], o['what'], o['where'], o.get('detail', ''))
